@@ -25,7 +25,7 @@ func (r *RNG) Intn(n int) int {
 	}
 	return int(r.Next() % uint64(n))
 }
-func (r *RNG) Bool() bool       { return r.Next()&1 == 1 }
+func (r *RNG) Bool() bool        { return r.Next()&1 == 1 }
 func (r *RNG) Chance(p int) bool { return r.Intn(100) < p }
 func (r *RNG) Pick(xs []string) string {
 	return xs[r.Intn(len(xs))]
